@@ -426,6 +426,21 @@ def run(ctx: Ctx) -> int:
         ok = isinstance(item, ast.Name) and item.id in texts and ast.unparse(item) != loaded_v
         ctx.oblige("C05.c", ok, e, "a non-list environment value of a list option is kept as one item of text" if ok else f"`{src(e, 70)}` wraps the LOADED value: APP_NAMES=null gives [None] and APP_NAMES='a: b' gives [{{'a': 'b'}}], which str / Enum / Literal items reject, while --names null and --names 'a: b' are accepted on the command line", fn=lev5, construct="env list item stays text")
 
+    # ---------------- C05.j: an init_args-only value resolves to the default's class on every channel -------------------
+    # ActionTypeHint._check_type: with no previous value in the configuration, a value that gives only init_args is read
+    # against the class of the argument's default spec - in every channel.  The one exception is the computation of the
+    # sub-defaults themselves (context flag sub_defaults), where the default is what is being expanded.
+    ct5 = ctx.func("_typehints:ActionTypeHint._check_type")
+    from .util import guard_atoms as _ga5
+
+    seeds_ = [s_ for s_ in walk_local(ct5) if isinstance(s_, ast.Assign) and isinstance(s_.value, ast.Call) and call_leaf(s_.value) == "Namespace" and any(k.arg == "class_path" and "default" in ast.unparse(k.value) for k in s_.value.keywords)]
+    ctx.floor("C05.j-default-class", len(seeds_), 1)
+    for s_ in seeds_:
+        atoms = {(ast.unparse(t), pol) for t, pol in _ga5(s_, stop=ct5)}
+        flag = [(t, pol) for t, pol in atoms if "sub_defaults" in t]
+        ok = flag == [("sub_defaults.get()", False)] and any("is None" in t and pol for t, pol in atoms) and any("is_subclass_spec" in t and pol for t, pol in atoms)
+        ctx.oblige("C05.j", ok, s_, "without a previous value the class of the default spec is the base of an init_args-only value, except while sub-defaults are expanded" if ok else f"the default's class is taken as previous value under {sorted(atoms)}: with the sub_defaults flag tested the wrong way round, `init_args`-only values resolve to the annotated base class through parse_string / parse_path / environment and to the default's class through argv / --cfg / parse_object", fn=ct5)
+
     return ctx.finish(
         explanation=(
             "The channels (argparse actions, namespace application, environment loading) are different code that must funnel into one checker: every store of an action's value derives from "
